@@ -53,6 +53,7 @@ class Job:
     min_witnesses: int = 1
     cost: int = 1                  # scheduling weight (expensive first)
     solver: str = "cadical"        # cbmc --sat-solver (minisat2 | cadical)
+    remove_bodies: List[str] = field(default_factory=list)   # functions of the real TU turned into body-less (nondet) stubs via goto-instrument; each is listed as a stub
     ignore: List[tuple] = field(default_factory=list)   # (regex on CBMC check description, reason): documented tool artifacts, listed in evidence
 
 
@@ -190,6 +191,14 @@ def run_job(job: Job, builder: Builder, work: str):
     if rc != 0:
         res.update(verdict="build_error", detail="link failed:\n" + e[-3000:])
         return res
+    if job.remove_bodies:
+        gb2 = gb[:-3] + ".rb.gb"
+        cmd = ["goto-instrument"] + sum((["--remove-function-body", f] for f in job.remove_bodies), []) + [gb, gb2]
+        rc, o, e, to, dt = sh(cmd, timeout=300)
+        if rc != 0:
+            res.update(verdict="build_error", detail="goto-instrument failed:\n" + (o + e)[-3000:])
+            return res
+        gb = gb2
     res["gb"] = gb
     cmd = cbmc_cmd(job, gb)
     res["cbmc_cmd"] = " ".join(cmd).replace(work, "$WORK")
@@ -214,7 +223,7 @@ def run_job(job: Job, builder: Builder, work: str):
     res["solver_s"] = round(sum(float(x) for x in re.findall(r"Runtime Solver: ([0-9.e+-]+)s", text)), 3)
     res["symex_s"] = round(sum(float(x) for x in re.findall(r"Runtime Symex: ([0-9.e+-]+)s", text)), 3)
     res["no_body"] = sorted(set(x for x in re.findall(r"no body for (?:function|callee) ([A-Za-z0-9_]+)", text)
-                                if not x.startswith("nondet_") and x not in job.allow_no_body))
+                                if not x.startswith("nondet_") and x not in job.allow_no_body and x not in job.remove_bodies))
     n_ok = 0
     for p in parsed["props"]:
         d, st = p["desc"], p["status"]
@@ -233,7 +242,7 @@ def run_job(job: Job, builder: Builder, work: str):
             continue
         if d.startswith("no body for callee"):
             fn = d.split()[-1]
-            if fn not in job.allow_no_body and fn not in res["no_body"]:
+            if fn not in job.allow_no_body and fn not in job.remove_bodies and fn not in res["no_body"]:
                 res["no_body"].append(fn)
             continue
         if d.startswith("unwinding assertion") or "recursion unwinding assertion" in d:
